@@ -19,7 +19,7 @@ structure DrawState where
 deriving Repr
 
 /-- `LineType::wrapped_height`: `max(1, ceil(cols / W))` (`W ≥ 1`) -/
-def wrappedHeight (W : Nat) (l : Line) : Nat := max 1 ((l.cols + W - 1) / W)
+def wrappedHeight (W : Nat) (l : Line) : Nat := max 1 ((l.padded W + W - 1) / W)
 
 def visualLineCount (W : Nat) (ls : List Line) : Nat := (ls.map (wrappedHeight W)).sum
 
@@ -63,9 +63,9 @@ def paintLoop (fx : Fixes) (W H total : Nat) (nothingCleared : Bool) (unparked :
       let real' := if l.isBar then real + h else real
       let pre := if idx ≠ 0 then [TOp.writeLine []] else if fx.fpark && nothingCleared && unparked then [TOp.writeLine []] else []
       let blank := fx.f4 && idx == 0 && nothingCleared && l.cols == 0 && decide (total > 1)
-      let used := if blank then 1 else l.cols
+      let used := if blank then 1 else l.padded W
       let extra := if blank then [TOp.writeStr [space]] else []
-      let fill := if !fx.f23 && idx + 1 == total then [TOp.writeStr (List.replicate (h * W - l.cols) space)] else []
+      let fill := if !fx.f23 && idx + 1 == total then [TOp.writeStr (List.replicate (h * W - l.padded W) space)] else []
       let rest := paintLoop fx W H total nothingCleared unparked (idx + 1) real' ls
       let last := match rest.2.2 with
         | some x => some x
